@@ -495,6 +495,27 @@ func (in *Interp) callFn(g *G, fn *ssa.Function, args []Value, env []Value, ret 
 		fn = m
 		env = nil
 	}
+	if fnKey(fn) == "(*sync.Once).Do" && len(args) == 2 {
+		// the callback runs as an ordinary frame of the calling goroutine, so it may block (a callback
+		// that takes a mutex); a concurrent second Do returns at once instead of waiting for the first
+		// to finish (simplification: the callbacks in the encoded code only guard a release path)
+		if fv, ok := args[1].(*FuncV); ok && fv != nil && fv.nat == nil && fv.fn != nil && fv.fn.Blocks != nil {
+			if p, ok := args[0].(PtrV); ok {
+				st, _ := in.side[p].(*onceAsync)
+				if st == nil {
+					st = &onceAsync{}
+					in.side[p] = st
+				}
+				if st.done {
+					return nil, false
+				}
+				st.done = true
+				in.noteStub("(*sync.Once).Do")
+				in.pushFrame(g, fv.fn, nil, fv.env, ret, site)
+				return nil, true
+			}
+		}
+	}
 	if v, handled := in.tryIntrinsic(fn, args, site); handled {
 		if g.status == gBlocked || g.unwind != nil || in.yielded {
 			in.yielded = false
@@ -514,6 +535,8 @@ func (in *Interp) callFn(g *G, fn *ssa.Function, args []Value, env []Value, ret 
 	in.pushFrame(g, fn, args, env, ret, site)
 	return nil, true
 }
+
+type onceAsync struct{ done bool }
 
 func (in *Interp) callerIsModel(g *G) bool {
 	if g == nil || len(g.stack) == 0 {
